@@ -578,12 +578,29 @@ impl<T: Transport, Env: UtpEnvironment> VirtualSocket<T, Env> {
 
         let mut message_too_long = None;
 
+        // The largest segment that can be sent at all once everything in flight is ACKed.
+        let max_sendable_payload = self
+            .congestion_controller
+            .window()
+            .min(self.last_remote_window as usize);
+        let mut unsendable_probe = None;
+
         // Send the stuff we haven't sent yet, up to sender's window.
         for mut item in self
             .user_tx_segments
             .iter_mut_for_sending(Some(self.last_sent_seq_nr + 1))
         {
             if remaining_cwnd < item.payload_size() {
+                // The window shrunk since this MTU probe was cut, so it doesn't fit anymore, and
+                // it won't until the window grows again, which the remote doesn't tell us about
+                // unless it was zero. Take the probe back and cut a segment that fits instead.
+                if item.is_mtu_probe()
+                    && item.send_count() == 0
+                    && item.payload_size() > max_sendable_payload
+                {
+                    unsendable_probe = Some(item.seq_nr());
+                    break;
+                }
                 METRICS.send_window_exhausted.increment(1);
                 trace_every_ms!(100, "remote recv window exhausted");
                 break;
@@ -618,6 +635,13 @@ impl<T: Transport, Env: UtpEnvironment> VirtualSocket<T, Env> {
                     break;
                 }
                 Err(e) => return Err(e),
+            }
+        }
+
+        if let Some(seq_nr) = unsendable_probe {
+            if self.user_tx_segments.pop_mtu_probe(seq_nr) {
+                debug!(?seq_nr, "popped an unsent MTU probe larger than the window");
+                self.this_poll.restart = true;
             }
         }
 
